@@ -9,6 +9,7 @@ package router
 
 import (
 	"fmt"
+	"unicode/utf16"
 
 	"github.com/XiaoMi/Gaea/util"
 	vs "github.com/XiaoMi/Gaea/zz_verifsym"
@@ -213,4 +214,64 @@ func Harness_C08_MurmurHash() {
 	got := util.NewMurmurHash(int(seed)).HashUnencodedChars(key)
 	vs.Assert(got == int(vhGuavaMurmur(seed, units)), "C08/murmur/same-hash-as-guava")
 	vs.Cover("C08/murmur/done")
+}
+
+// ---- mycat_murmur: the consistent-hash ring ----
+
+var vhRingSeed, vhRingKeyHash int32
+
+const vhRingLookup = "\x00lookup"
+
+// vhRingHash stands in for MurmurHash.HashUnencodedChars: node names are hashed with the Guava
+// transcription above (Harness_C08_MurmurHash shows the real function equal to it), the looked-up
+// key hashes to an arbitrary int32.
+func vhRingHash(m *util.MurmurHash, s string) int {
+	if s == vhRingLookup {
+		vhRingKeyHash = vs.Int32("hash")
+		return int(vhRingKeyHash)
+	}
+	return int(vhGuavaMurmur(vhRingSeed, utf16.Encode([]rune(s))))
+}
+
+//verif:harness prop=C08 bounds="mycat_murmur ring: 1..4 shards, 1..3 virtual nodes per shard, seed from {0, 1, -7}; the looked-up key's hash is any int32 (symbolic); reference: Mycat's TreeMap ring (tailMap(hash).firstKey, else firstKey)"
+//verif:mock (*github.com/XiaoMi/Gaea/util.MurmurHash).HashUnencodedChars vhRingHash
+func Harness_C08_MurmurRing() {
+	count, vbt := vs.IntRange("shards", 1, 4), vs.IntRange("virtualNodes", 1, 3)
+	vhRingSeed = []int32{0, 1, -7}[vs.Choice("seed", 3)]
+	s, err := NewMycatPartitionMurmurHashShard(fmt.Sprint(vhRingSeed), fmt.Sprint(vbt), count)
+	vs.Assert(err == nil, "C08/ring/constructed")
+	if err != nil {
+		return
+	}
+	vs.Assert(s.Init() == nil, "C08/ring/initialised")
+	// Mycat: for each shard i, for n in 0..vbt-1: name = "SHARD-i" + "-NODE-0" + ... + "-NODE-n"; ring.put(hash(name), i)
+	ring := map[int32]int{}
+	var keys []int32
+	for i := 0; i < count; i++ {
+		name := "SHARD-" + fmt.Sprint(i)
+		for n := 0; n < vbt; n++ {
+			name += "-NODE-" + fmt.Sprint(n)
+			h := vhGuavaMurmur(vhRingSeed, utf16.Encode([]rune(name)))
+			if _, dup := ring[h]; !dup {
+				keys = append(keys, h)
+			}
+			ring[h] = i
+		}
+	}
+	for i := range keys { // ascending
+		for j := i + 1; j < len(keys); j++ {
+			if keys[j] < keys[i] {
+				keys[i], keys[j] = keys[j], keys[i]
+			}
+		}
+	}
+	got, ferr := s.FindForKey(vhRingLookup)
+	vs.Assert(ferr == nil, "C08/ring/lookup-succeeds")
+	h := vhRingKeyHash // the value the lookup hashed to
+	want := ring[keys[0]] // wrap around to the first node
+	for i := len(keys) - 1; i >= 0; i-- {
+		want = vs.IteInt(h <= keys[i], ring[keys[i]], want)
+	}
+	vs.Assert(got == want, "C08/ring/same-shard-as-mycat")
+	vs.Cover("C08/ring/done")
 }
